@@ -366,6 +366,21 @@ def build(reg, src):
     from pyvc.leancheck import lean_check
     reg.extra_checks.append(lean_check('Arith.lean', ['mod_block', 'mod_shift', 'mod_shift_back', 'mod_range', 'mul_ge', 'mul_nonpos', "mul_nonneg'"]))
     from replay import c01 as rp
+    # (bounded, labelled) the verbs on literal operands against independent oracles written from the reference sentences: also run on
+    # every check (it is cheap), so that a change in a verb that is not under contract, or beyond the contract's model (numbers that a
+    # detour through reals cannot represent, a second use of the same operand object), still fails a named row
+    def verb_oracle(ctx):
+        from pyvc.run import run_replay
+        r = run_replay(rp.replay_verbs, {}, 'all-verbs', timeout_s=120)
+        if r.get('error') or 'detail' not in r:
+            return [dict(name='verb-oracle(bounded)::harness', ok=False, undecided=True, backend='native-execution (bounded)', detail=str(r)[:300])]
+        return [dict(name='verb-oracle(bounded)::grids', ok=not r.get('confirmed'), backend='native-execution (bounded)', detail=str(r.get('detail'))[:600],
+                     confirmed=bool(r.get('confirmed')))]
+    verb_oracle.__name__ = 'verb-oracle'
+    reg.extra_checks.append(verb_oracle)
+    reg.bounded.append(dict(check='verb-oracle', tool='native evaluation of verb applications on literal operands vs. oracles written from the reference sentences',
+                            bound='Take, Drop, Rotate, Split, Cut, At/Index, Integer-Divide, Remainder (incl. operands beyond 2**53), Reshape with a reused shape operand: about 1400 cases',
+                            result='see row'))
     reg.replays.append((r'.', rp.replay_verbs))
 
 
